@@ -206,6 +206,6 @@ theorem vendorColumns_orix (a b : List HLine) (extras : List Str) (n : Nat)
     conv_rhs => rw [← List.map_id extras]
     exact List.map_congr_left (fun e he => by simpa using hplain e he)
   unfold vendorColumns
-  simp only [hd, orix_columns, List.head?_cons, hdrop, hmap]
+  simp only [hd, orix_columns, Option.bind_some, List.head?_cons, hdrop, hmap]
 
 end Orix.Codec.Ang
